@@ -220,7 +220,7 @@ def run_dataset(job):
                                            "nulls": [c is None for c in cellsv],
                                            "got_null": None if "raised" in o else None})
                     a += n
-                o["page_models"] = pm[:3]
+                o["page_models"] = pm[:8]
                 # what the real read produced for those chunks (as null flags + original row index)
                 if pm and "raised" not in o:
                     a2 = 0
@@ -494,7 +494,7 @@ def run(ctx):
         mo_n = ["Ok", list(mo[1])] if (isinstance(mo, tuple) and mo[0] == "Ok") else ["Err" if isinstance(mo, tuple) else "?"]
         ctx.correspondence("two_pass model ~ to_pandas(filters, row_filter=True) (row ids, in order)", case, mo_n, ["Ok", got])
     # -------- correspondence 2: page loop model vs what read_col wrote for a multi-page chunk under a mask
-    lim = 600 if quick else 5000
+    lim = 2000 if quick else 8000
     if len(pexprs) > lim:
         keep = sorted(rng.sample(range(len(pexprs)), lim))
         pexprs = [pexprs[i] for i in keep]
